@@ -170,4 +170,181 @@ theorem parseNumber_renderInt (i : Int) (tl : Bytes) (h1 : -9223372036854775808 
     have h4 : (i.natAbs : Int) = i := by omega
     simp [mkInt, hs.value, h3, h4]
 
+/-! ## Item 2: strings -/
+
+theorem hexNibble_tab : ∀ n, n < 32 →
+    hexVal (Bytes.hexDigit (UInt8.ofNat n >>> 4)) = some (n / 16) ∧
+    hexVal (Bytes.hexDigit (UInt8.ofNat n &&& 15)) = some (n % 16) ∧
+    (32 : UInt8) ≤ Bytes.hexDigit (UInt8.ofNat n >>> 4) ∧
+    (32 : UInt8) ≤ Bytes.hexDigit (UInt8.ofNat n &&& 15) ∧
+    Bytes.hexDigit (UInt8.ofNat n >>> 4) < (128 : UInt8) ∧
+    Bytes.hexDigit (UInt8.ofNat n &&& 15) < (128 : UInt8) := by
+  decide
+
+theorem lt32_toNat {c : UInt8} (h : c < 32) : c.toNat < 32 := by
+  simpa [UInt8.lt_iff_toNat_lt] using h
+
+theorem hex4_of {a b c d : UInt8} {x y z w : Nat} (rest : Bytes) (ha : hexVal a = some x)
+    (hb : hexVal b = some y) (hc : hexVal c = some z) (hd : hexVal d = some w) :
+    hex4 (a :: b :: c :: d :: rest) = some (((x * 16 + y) * 16 + z) * 16 + w, rest) := by
+  simp only [hex4, ha, hb, hc, hd]
+
+theorem parseUnicodeEscape_small {input rest : Bytes} {n : Nat} (h : hex4 input = some (n, rest))
+    (hn : n < 0x80) : parseUnicodeEscape input = some ([n.toUInt8], rest) := by
+  have e1 : ¬ (0xDC00 ≤ n ∧ n ≤ 0xDFFF) := by omega
+  have e2 : ¬ (0xD800 ≤ n ∧ n ≤ 0xDBFF) := by omega
+  simp only [parseUnicodeEscape, h, e1, e2, if_false, encodeUtf8, hn, if_true]
+
+theorem parseStrAux_u00 (c : UInt8) (hlt : c < 32) (fuel : Nat) (acc rest : Bytes) :
+    parseStrAux (fuel + 1) acc
+      (92 :: 117 :: 48 :: 48 :: Bytes.hexDigit (c >>> 4) :: Bytes.hexDigit (c &&& 15) :: rest)
+      = parseStrAux fuel (c :: acc) rest := by
+  have hn := lt32_toNat hlt
+  have ht := hexNibble_tab c.toNat hn
+  have hc : UInt8.ofNat c.toNat = c := by simp
+  rw [hc] at ht
+  have hv48 : hexVal 48 = some 0 := by decide
+  have h4 := hex4_of rest hv48 hv48 ht.1 ht.2.1
+  have hval : ((0 * 16 + 0) * 16 + c.toNat / 16) * 16 + c.toNat % 16 = c.toNat := by omega
+  rw [hval] at h4
+  have hu := parseUnicodeEscape_small h4 (by omega)
+  have e4 : c.toNat.toUInt8 = c := by simp
+  rw [e4] at hu
+  have hpe : parseEscape (117 :: 48 :: 48 :: Bytes.hexDigit (c >>> 4) ::
+      Bytes.hexDigit (c &&& 15) :: rest) = some ([c], rest) := by
+    simp only [parseEscape]
+    simpa using hu
+  simp only [parseStrAux, hpe]
+  simp
+
+/-- One escaped byte is read back as itself, for one unit of fuel. -/
+theorem parseStrAux_escapeByte (c : UInt8) (fuel : Nat) (acc rest : Bytes) :
+    parseStrAux (fuel + 1) acc (escapeByte c ++ rest) = parseStrAux fuel (c :: acc) rest := by
+  unfold escapeByte
+  split
+  · rename_i h; subst h; simp [parseStrAux, parseEscape]
+  split
+  · rename_i h; subst h; simp [parseStrAux, parseEscape]
+  split
+  · rename_i h; subst h; simp [parseStrAux, parseEscape]
+  split
+  · rename_i h; subst h; simp [parseStrAux, parseEscape]
+  split
+  · rename_i h; subst h; simp [parseStrAux, parseEscape]
+  split
+  · rename_i h; subst h; simp [parseStrAux, parseEscape]
+  split
+  · rename_i h; subst h; simp [parseStrAux, parseEscape]
+  split
+  · rename_i hlt
+    simp only [List.cons_append, List.nil_append]
+    rw [parseStrAux_u00 c hlt]
+  · rename_i h1 h2 h3 h4 h5 h6 h7 h8
+    simp [parseStrAux, h1, h2, h8]
+
+theorem parseStrAux_renderStrBody (s : Bytes) : ∀ (fuel : Nat) (acc tl : Bytes),
+    s.length < fuel →
+    parseStrAux fuel acc (renderStrBody s ++ 34 :: tl) = some (acc.reverse ++ s, tl) := by
+  induction s with
+  | nil =>
+    intro fuel acc tl hf
+    cases fuel with
+    | zero => simp at hf
+    | succ f => simp [renderStrBody, parseStrAux]
+  | cons c s ih =>
+    intro fuel acc tl hf
+    cases fuel with
+    | zero => simp at hf
+    | succ f =>
+      simp only [renderStrBody, List.append_assoc]
+      rw [parseStrAux_escapeByte, ih f (c :: acc) tl (by simpa using hf)]
+      simp
+
+theorem escapeByte_length_pos (c : UInt8) : 1 ≤ (escapeByte c).length := by
+  unfold escapeByte
+  repeat' split
+  all_goals simp
+
+theorem renderStrBody_length (s : Bytes) : s.length ≤ (renderStrBody s).length := by
+  induction s with
+  | nil => simp [renderStrBody]
+  | cons c s ih =>
+    have := escapeByte_length_pos c
+    simp only [renderStrBody, List.length_cons, List.length_append]
+    omega
+
+/-- Item 2: a rendered string literal is read back (any byte string, valid UTF-8 or not). -/
+theorem parseStrLit_renderStr (s tl : Bytes) (fuel : Nat) (hf : s.length < fuel) :
+    parseStrLit fuel ((renderStr s).tail ++ tl) = some (s, tl) := by
+  unfold parseStrLit renderStr
+  simp only [List.tail_cons, List.append_assoc, List.singleton_append]
+  rw [parseStrAux_renderStrBody s fuel [] tl hf]
+  simp
+
+/-- The form used by `parseValue`: fuel `rest.length + 1`. -/
+theorem parseStrLit_renderStr' (s tl : Bytes) :
+    parseStrLit ((renderStrBody s ++ 34 :: tl).length + 1) (renderStrBody s ++ 34 :: tl)
+      = some (s, tl) := by
+  unfold parseStrLit
+  rw [parseStrAux_renderStrBody s _ [] tl]
+  · simp
+  · have := renderStrBody_length s
+    simp only [List.length_append, List.length_cons]
+    omega
+
+theorem escapeByte_ge32 (c : UInt8) : ∀ b ∈ escapeByte c, 32 ≤ b := by
+  unfold escapeByte
+  split
+  · decide
+  split
+  · decide
+  split
+  · decide
+  split
+  · decide
+  split
+  · decide
+  split
+  · decide
+  split
+  · decide
+  split
+  · rename_i hlt
+    have ht := hexNibble_tab c.toNat (lt32_toNat hlt)
+    have hc : UInt8.ofNat c.toNat = c := by simp
+    rw [hc] at ht
+    intro b hb
+    simp only [List.mem_cons, List.not_mem_nil, or_false] at hb
+    rcases hb with h | h | h | h | h | h <;> subst h
+    · decide
+    · decide
+    · decide
+    · decide
+    · exact ht.2.2.1
+    · exact ht.2.2.2.1
+  · rename_i h
+    intro b hb
+    simp only [List.mem_singleton] at hb
+    subst hb
+    exact UInt8.not_lt.mp h
+
+theorem renderStrBody_ge32 (s : Bytes) : ∀ b ∈ renderStrBody s, 32 ≤ b := by
+  induction s with
+  | nil => simp [renderStrBody]
+  | cons c s ih =>
+    intro b hb
+    simp only [renderStrBody, List.mem_append] at hb
+    cases hb with
+    | inl h => exact escapeByte_ge32 c b h
+    | inr h => exact ih b h
+
+theorem renderStr_no_raw_control (s : Bytes) : ∀ c ∈ renderStr s, 32 ≤ c := by
+  intro c hc
+  simp only [renderStr, List.mem_cons, List.mem_append, List.not_mem_nil, or_false] at hc
+  rcases hc with h | h | h
+  · subst h; decide
+  · exact renderStrBody_ge32 s c h
+  · subst h; decide
+
+
 end Cacache.Json
